@@ -198,7 +198,7 @@ func (lw *listWorld) wireFilters(r *rand.Rand, u rig.Update, fp, fd *model.Filte
 // ---------------------------------------------------------------------------
 // operations that are not updates of the function (lists, race)
 
-var c11ReadOps = []string{"peer-read", "peer-read-selector", "peer-read-elements", "peer-read-remote-side", "request-remote-data", "peer-subscribe-toggle", "datacopy-both", "peer-read-discovery"}
+var c11ReadOps = []string{"peer-read", "peer-read-selector", "peer-read-elements", "peer-read-remote-side", "request-remote-data", "peer-subscribe-toggle", "datacopy-both", "peer-read-discovery", "app-encodes-a-retained-value"}
 
 // c11ReadOp makes the stack serve one read (or change who is notified) and re-fingerprints every retained value
 // of the running history. Values the operation hands out are retained too. Never called in a blind history:
@@ -271,6 +271,11 @@ func c11ReadOp(c *rig.Ctx, lw *listWorld, k *c11Keeper, st *c11Stats) {
 		k.note("remote", rv)
 		k.keep("datacopy-local", lv, "read between two updates")
 		k.keep("datacopy-remote", rv, "read between two updates")
+	case "app-encodes-a-retained-value":
+		// the application encodes one of the values it holds (x_c11_times.go): no value handed out may change
+		if what, ok := k.appEncode(r); ok {
+			k.hist = append(k.hist, "the application encodes (json.Marshal) a retained value obtained from "+what)
+		}
 	case "peer-read-discovery":
 		lw.p.Tap.Take()
 		lw.p.Send(model.CmdClassifierTypeRead, lw.p.NM(), rig.LNM, false, nil, model.CmdType{NodeManagementDetailedDiscoveryData: &model.NodeManagementDetailedDiscoveryDataType{}})
